@@ -83,6 +83,13 @@ func (r *ResponseFilterWriter) WriteHeader(code int) {
 		r.ResponseWriter.WriteHeader(code)
 		return
 	}
+	if r.statusCodeWritten {
+		// a superfluous call: the header is out and whether to
+		// compress was decided with it (the header now carries the
+		// Content-Encoding set then, which must not undo the decision)
+		r.ResponseWriter.WriteHeader(code)
+		return
+	}
 	// Determine if compression should be used or not.
 	r.shouldCompress = true
 	for _, filter := range r.filters {
